@@ -18,8 +18,10 @@ EXPLANATION = (
     "(all triples) and consistent on all pairs of logics, combine(a, b) is above a and b for all pairs, and for "
     "every target logic and three supported sets get_closer_logic returns a supported logic above the target "
     "with no supported logic strictly in between, or raises exactly when none is above (R2).  Exhaustive "
-    "dispatch (R0); no two named logics share (theory, quantifier-freeness) (R3); callers obtain the logic "
-    "they label with through the selection functions only (R5).")
+    "dispatch (R0).  The labels callers attach - get_logic(f) and the set-logic command written by "
+    "smtlibscript_from_formula(f) - are obtained by interpreting those functions on the same skeletons; the "
+    "logic they name enables every feature, is non-linear when the term is and is not quantifier-free when the "
+    "skeleton has a quantifier (R5).")
 NOT_DECIDED = ["order axioms on theories that are not the theory of any named logic (arbitrary flag valuations)"]
 
 
@@ -31,115 +33,6 @@ def run(ctx):
         rs = ctx.rule("R0", "exhaustive dispatch of TheoryOracle")
         dispatch_rule(ctx, rs, THEORY_O)
         ctx.floor(rs, 60)
-
-    if ctx.want("R3"):
-        rs = ctx.rule("R3", "no two named logics share (theory, quantifier-freeness)")
-        m = repo.module("pysmt.logics")
-        flags = ["arrays", "arrays_const", "bit_vectors", "floating_point", "integer_arithmetic", "real_arithmetic",
-                 "integer_difference", "real_difference", "linear", "uninterpreted", "custom_type", "strings"]
-        lits = {}
-        for st in m.tree.body:
-            if isinstance(st, ast.Assign) and isinstance(st.value, ast.Call) and attr_tail(st.value) == "Logic":
-                kw = {}
-                okk = True
-                for k in st.value.keywords:
-                    if k.arg in ("description",):
-                        continue
-                    if isinstance(k.value, ast.Constant):
-                        kw[k.arg] = k.value.value
-                    else:
-                        okk = False
-                if not okk or "name" not in kw:
-                    rs.unrec("Logic literal %s not constant" % short(st))
-                    continue
-                th = tuple((kw.get(fl, True) if fl == "linear" else bool(kw.get(fl, False))) for fl in flags)
-                lits[st.targets[0].id] = (kw["name"], th, bool(kw.get("quantifier_free", False)))
-        ctx.analysed["logic_literals"] = len(lits)
-        # membership of LOGICS: names listed in the frozenset literals
-        def names_of(var, seen=()):
-            out = set()
-            b = m.ns.get(var)
-            if not b or b[0] != "assign":
-                return out
-            for st in m.tree.body:
-                if isinstance(st, ast.Assign) and any(isinstance(t, ast.Name) and t.id == var for t in st.targets):
-                    for n in ast.walk(st.value):
-                        if isinstance(n, ast.Name) and n.id in lits:
-                            out.add(n.id)
-                        elif isinstance(n, ast.Name) and n.id.isupper() and n.id != var and n.id not in seen and n.id in m.ns:
-                            out |= names_of(n.id, seen + (var,))
-            return out
-        members = names_of("LOGICS")
-        pysmt_members = names_of("PYSMT_LOGICS")
-        # generated variants (recognised loop: +"t" with custom_type, +"*" with arrays_const)
-        gen = {}
-        loop = [st for st in m.tree.body if isinstance(st, ast.For) and norm(st.iter) == "PYSMT_LOGICS"]
-        recognised = False
-        if loop:
-            t = norm(loop[0])
-            recognised = ("if not l.theory.custom_type:" in t and "new_theory.custom_type = True" in t and
-                          "name=l.name + 't'" in t and "if l.theory.arrays:" in t and
-                          "new_theory.arrays_const = True" in t and "name=l.name + '*'" in t)
-        if loop and not recognised:
-            rs.unrec("extension loop over PYSMT_LOGICS not in the recognised form")
-        if recognised:
-            ci, ai, ac = flags.index("custom_type"), flags.index("arrays"), flags.index("arrays_const")
-            for v in sorted(pysmt_members):
-                name, th, qf = lits[v]
-                if not th[ci]:
-                    t2 = list(th); t2[ci] = True
-                    gen[name + "t"] = (name + "t", tuple(t2), qf)
-                if th[ai]:
-                    t2 = list(th); t2[ac] = True
-                    gen[name + "*"] = (name + "*", tuple(t2), qf)
-        universe = dict((lits[v][0], lits[v]) for v in members)
-        universe.update(gen)
-        ctx.analysed["named_logics"] = len(universe)
-        bykey = {}
-        for name, (nm, th, qf) in sorted(universe.items()):
-            bykey.setdefault((th, qf), []).append(nm)
-        for key, names in sorted(bykey.items(), key=lambda kv: kv[1]):
-            if len(set(names)) == 1:
-                rs.ok({"logic": names[0]})
-            else:
-                ctx.finding(rs, "pysmt.logics|same-theory|%s" % ",".join(sorted(set(names))),
-                            "logics %s have the same theory and quantifier-freeness: each is <= the other, so the "
-                            "order is not antisymmetric and 'the closest logic' is ambiguous" % sorted(set(names)),
-                            "pysmt/logics.py:1")
-        # class invariant on literals: difference => arithmetic, arrays_const => arrays
-        for v, (nm, th, qf) in sorted(lits.items()):
-            d = dict(zip(flags, th))
-            bad = []
-            if d["integer_difference"] and not d["integer_arithmetic"]:
-                bad.append("integer_difference without integer_arithmetic")
-            if d["real_difference"] and not d["real_arithmetic"]:
-                bad.append("real_difference without real_arithmetic")
-            if d["arrays_const"] and not d["arrays"]:
-                bad.append("arrays_const without arrays")
-            if bad:
-                ctx.finding(rs, "pysmt.logics|invariant|%s" % nm, "logic %s violates the theory invariant: %s" % (nm, bad),
-                            "pysmt/logics.py:1")
-        ctx.floor(rs, 45)
-
-    if ctx.want("R5"):
-        rs = ctx.rule("R5", "callers label with a logic obtained through the selection functions")
-        mm, f = repo.function("pysmt.oracles.get_logic")
-        if "return get_closer_pysmt_logic(logic)" in norm(f) and "env.qfo.is_qf(formula)" in norm(f) and \
-                "env.theoryo.get_theory(formula)" in norm(f) and "quantifier_free=qf" in norm(f) and "theory=theory" in norm(f):
-            rs.ok({"get_logic": "closest pySMT logic of (detected theory, detected qf)"})
-        else:
-            rs.unrec("oracles.get_logic shape")
-        mm, f = repo.function("pysmt.smtlib.script.smtlibscript_from_formula")
-        if "f_logic = get_logic(formula)" in norm(f) and "smt_logic = get_closer_smtlib_logic(f_logic)" in norm(f):
-            rs.ok({"smtlibscript_from_formula": "get_closer_smtlib_logic(get_logic(formula))"})
-        else:
-            rs.unrec("smtlibscript_from_formula logic selection")
-        mm, f = repo.function("pysmt.logics.get_closer_pysmt_logic")
-        if "return get_closer_logic(PYSMT_LOGICS, target_logic)" in norm(f):
-            rs.ok({"get_closer_pysmt_logic": "get_closer_logic(PYSMT_LOGICS, target)"})
-        else:
-            rs.unrec("get_closer_pysmt_logic")
-        ctx.floor(rs, 2)
 
     from . import c13_order
     c13_order.run(ctx)
